@@ -1194,6 +1194,12 @@ class parser(object):
                     res.tzname in self.info.UTCZONE):
                 aware = aware.replace(tzinfo=tz.UTC)
 
+            # A UTC designator or a zero offset means UTC, also when the
+            # local zone is merely *called* UTC or GMT (e.g. TZ=UTC+3)
+            elif (res.tzoffset == 0 and
+                    aware.utcoffset() != datetime.timedelta(0)):
+                aware = naive.replace(tzinfo=tz.UTC)
+
         elif res.tzoffset == 0:
             aware = naive.replace(tzinfo=tz.UTC)
 
